@@ -1,8 +1,76 @@
-(* Props/C07.v — placeholder, replaced below *)
-From Coq Require Import ZArith List Bool.
-From EV Require Import Res Arr Group GroupSpec.
+(* Props/C07.v — C07 "Group-by results equal the group-wise reference computation".
+   Statements only; proofs are in Proofs/GroupCore.v (list level, generic in the key order), GroupModel.v
+   (DataFrame.groupby), GroupFrames.v (the HDF5DataFrameGroupBy methods, drop_duplicates, the Session aggregates).
+   Model: Model/Group.v (+ Spans.v, FilterIndex.v, StableSort.v: the code of /repo after work/C07/fix-*.diff).
+   Spec: Spec/GroupSpec.v.   Reused: every span kernel theorem of Props/C08.v, the sort / apply_index
+   theorems of Props/C09.v.  All theorems are unbounded in rows, key columns, groups and entry lengths.
+
+   groups kr            the distinct key tuples of the key rows kr, ascending (lexicographic, bytewise)
+   members k kr vals    the values of the rows whose key tuple is k, in original row order
+   agg_ref f kr vals    [ f (members k kr vals) | k <- groups kr ]
+   sort_rows / sort_vals  the key rows / a value column permuted by the stable lexicographic sort
+                        (= Session.dataset_sort_index, Props/C09.v c09_sort_index_is_stable_lexsort)
+   rneqb                row inequality as _get_spans_for_multi_fields computes it (exact, rneqb_exact) *)
+From Coq Require Import ZArith List Bool Sorted.
+From EV Require Import Res Arr StableSort Spans SpansSpec FilterIndex FilterIndexSpec Group GroupSpec
+  GroupCore GroupModel.
 Import ListNotations.
 Open Scope Z_scope.
-Theorem c07_placeholder : key_name 1 = 8.
-Proof. reflexivity. Qed.
-Print Assumptions c07_placeholder.
+
+(* ---- 0. the specification means what the property says ------------------------------------------------- *)
+(* groups: strictly ascending (hence duplicate-free) and exactly the key tuples that occur *)
+Theorem groups_meaning : forall kr,
+  StronglySorted (fun a b => rowle a b = true /\ rowle b a = false) (groups kr) /\
+  forall k, In k (groups kr) <-> In k kr.
+Proof. exact groups_meaning_pf. Qed.
+Print Assumptions groups_meaning.
+
+(* ---- 1. the composition at row level (the heart of C07) --------------------------------------------------- *)
+(* full: stable lexicographic sort of the key rows, spans of the sorted rows (as the multi-field kernel computes
+   them), first row of every span  =  the distinct key tuples in ascending order *)
+Theorem spans_of_sorted_are_groups : forall kr,
+  gather [] (sort_rows kr) (removelast (spans_ref rneqb (sort_rows kr))) = groups kr.
+Proof. exact (@sorted_first_rows_are_groups (list Z) []). Qed.
+Print Assumptions spans_of_sorted_are_groups.
+
+(* full: reducing each span of the co-sorted value column by ANY function f of the span's rows (count, first,
+   last, min, max, ...) = applying f to the members of each group in ORIGINAL row order (stability) *)
+Theorem sorted_spans_reduce_is_groupwise : forall (V:Type) (dv:V) (R:Type) (f:list V -> R) kr vals,
+  length kr = length vals ->
+  reduce_spans (fun (_:Z) l => f l) (spans_ref rneqb (sort_rows kr)) (sort_vals dv kr vals) = agg_ref f kr vals.
+Proof. exact (@sorted_spans_reduce). Qed.
+Print Assumptions sorted_spans_reduce_is_groupwise.
+
+Theorem span_lengths_are_group_sizes : forall (V:Type) (dv:V) kr (vals:list V), length kr = length vals ->
+  count_ref (spans_ref rneqb (sort_rows kr)) = agg_ref (@len V) kr vals.
+Proof. exact (@sorted_spans_count). Qed.
+Print Assumptions span_lengths_are_group_sizes.
+
+(* full: counts sum to the number of rows *)
+Theorem counts_sum_to_rows : forall (V:Type) (dv:V) kr (vals:list V), length kr = length vals ->
+  sumZ (agg_ref (@len V) kr vals) = len kr.
+Proof. exact (@group_counts_sum). Qed.
+Print Assumptions counts_sum_to_rows.
+
+(* full: on sorted keys the stable sort is the identity — with or without the (truthful) hint the same rows reach
+   the span kernels *)
+Theorem sorted_hint_equivalent : forall (V:Type) (dv:V) kr (vals:list V), length kr = length vals ->
+  StronglySorted (fun a b => rowle a b = true) kr ->
+  sort_rows kr = kr /\ sort_vals dv kr vals = vals.
+Proof. exact (@sorted_input_unchanged). Qed.
+Print Assumptions sorted_hint_equivalent.
+
+Theorem rneqb_exact : forall a b, rneqb a b = false <-> a = b.
+Proof. exact rneqb_spec. Qed.
+Print Assumptions rneqb_exact.
+
+(* ---- 2. DataFrame.groupby -------------------------------------------------------------------------------- *)
+(* full: for every well-formed frame, existing distinct key names and truthful hint (groupby_pre), the model of
+   groupby — validation, stacking, check_if_sorted_for_multi_fields, dataset_sort_index, permuting the key
+   columns, _get_spans_for_multi_fields — never fails and returns: no sort index and the spans of the key rows when
+   they are sorted (or hinted); otherwise the stable lexicographic sort permutation and the spans of the sorted rows *)
+Theorem groupby_correct : forall cols by_ hint kr,
+  groupby_pre cols by_ hint = true -> key_rows cols by_ = Some kr ->
+  df_groupby cols by_ hint = Ok (gb_of by_ hint kr).
+Proof. exact df_groupby_correct. Qed.
+Print Assumptions groupby_correct.
